@@ -4,6 +4,7 @@ import Panacea.Driver.Did
 import Panacea.Driver.Validate
 import Panacea.Driver.Pnft
 import Panacea.Driver.Tx
+import Panacea.Driver.Bank
 /-! Model driver: one operation per input line, one answer per output line. -/
 open Panacea Panacea.Driver
 
@@ -14,6 +15,7 @@ structure DState where
   did : DidD := {}
   pnft : PnftD := {}
   tx : TxD := {}
+  bank : BankD := {}
 
 def stepLine (st : DState) (line : String) : DState × String :=
   let toks := (line.splitOn " ").filter (· ≠ "")
@@ -39,6 +41,10 @@ def stepLine (st : DState) (line : String) : DState × String :=
     else if tok = "reset" || tok = "now" || tok.startsWith "aol." || tok.startsWith "mon.c01." then
       match aolStep st.addrs st.aol toks with
       | some (d, ans) => ({ st with aol := d }, ans)
+      | none => (st, "bad-op")
+    else if tok.startsWith "bank." || tok = "endblock" || tok = "mon.c07.inv" then
+      match bankStep st.bank toks with
+      | some (d, ans) => ({ st with bank := d }, ans)
       | none => (st, "bad-op")
     else if tok = "tx" || tok.startsWith "tx." || tok = "grant" then
       match txStep st.addrs st.sigs st.tx toks with
